@@ -253,7 +253,8 @@ pub fn make_fdt_capable(oti: &mut OtiSpec) {
     }
     if oti.fec == Fec::Raptor {
         oti.b = oti.b.max(8);
-        oti.e = oti.e.min(96);
+        // a compressed FDT may be as small as ~200 bytes: keep >= 7 symbols
+        oti.e = oti.e.min(32);
         oti.e = ((oti.e as u32).div_ceil(oti.al as u32) * oti.al as u32) as u16;
     }
     if oti.fec.is_rs() {
